@@ -105,6 +105,26 @@ def cases(draw):
     from proof_generation.basic_interpreter import BasicInterpreter
     from proof_generation.interpreter import ExecutionPhase
 
+    if draw(st.integers(0, 5)) == 0:
+        # "alias" scenario: a memoised notation application that *expands to* a metavariable / pending substitution, and the
+        # written-out form used afterwards as the target of a substitution (where the interpreters insist on the class)
+        from lib import notations as N
+
+        by_label = N.registry()[1]
+        mv = R.MV(draw(st.sampled_from(CFG.ids)))
+        v = draw(st.sampled_from(CFG.ids))
+        kind = draw(st.sampled_from(['es', 'ss']))
+        plug = R.Y('a') if draw(st.booleans()) else (R.E((v + 1) % 3) if kind == 'es' else R.S((v + 1) % 3))
+        alias = ('n', by_label[draw(st.sampled_from(['foo', 'snd']))], None)
+        args = (mv, R.E(0), R.E(1)) if alias[1].label == 'foo' else (R.E(0), mv)
+        alias = ('n', alias[1], args)
+        inner = draw(st.sampled_from([mv, alias]))
+        axioms = [alias, ('i', (kind, v, mv, plug), inner), ('i', alias, (kind, v, mv, plug))]
+        axioms = axioms[: draw(st.integers(2, 3))]
+        specs = [('axiom', i) for i in range(len(axioms))]
+        trace = [['publish_axiom']] * len(axioms) + [['to_claim']] + [['publish_claim']] * len(axioms) + [['to_proof']] + [['prove_claim']] * len(axioms)
+        # memoise the notation application but (half of the time) not the written-out form, so that the alias is what memory holds
+        return {'part': 'hist', 'setup': H.setup_to_json(axioms, specs), 'trace': trace, 'memo_pick': 1 if draw(st.booleans()) else draw(st.integers(0, 2 ** 30)), 'alias': True}
     if draw(st.booleans()):
         axioms, specs = H.draw_setup(draw)
         r = H.Runner(BasicInterpreter(ExecutionPhase.Gamma), axioms, specs)
@@ -312,7 +332,7 @@ def _body(c, stats: Stats):
     fails = [k for k, v in statuses.items() if v != 'ok']
     has_empty = c['part'] == 'hist' and any(s[0] == 'instantiate_top' and not s[1] for s in c['trace'])
     stats.case(repr(cj), n_rules >= 3 and len(outcomes) >= 6,
-               [c['part'], 'all-ok' if not fails else ('all-fail' if not oks else 'MIXED')] + (['contains-empty-instantiation'] if has_empty else [])
+               [c['part'], 'all-ok' if not fails else ('all-fail' if not oks else 'MIXED')] + (['contains-empty-instantiation'] if has_empty else []) + (['memo-alias'] if c.get('alias') else [])
                + (['wrap-' + c['wrap']] if c['part'] == 'thunk' else []),
                {'part': c['part'], 'expression': descr[:600], 'stacks': len(outcomes), 'machine_replays': machine_checked})
     if oks and fails:
